@@ -249,6 +249,37 @@ def sc_loop(B, K, cap_kind, thr_kind, dask, isolated=False, policy="fifo"):
     return o
 
 
+def sc_em_observable(B, um, uv, uw, dask, seed):
+    """real code only: the property's own observable - the average training log-likelihood after
+    k and k+1 EM iterations of the real fit (same start), for k = 0..4"""
+    import numpy as np
+
+    gmm = B.mod("gmm")
+    rs = np.random.RandomState(seed)
+    X = np.vstack([rs.normal((-1.0, 0.5), (0.7, 1.2), (40, 2)), rs.normal((2.0, -1.0), (1.1, 0.5), (35, 2)), rs.normal((0.5, 3.0), 0.8, (25, 2))])
+    rs.shuffle(X)
+
+    def trained(k):
+        m = gmm.GMMMachine(3, update_means=um, update_variances=uv, update_weights=uw, max_fitting_steps=k, convergence_threshold=None)
+        m.weights = np.array([0.2, 0.5, 0.3])
+        m.means = np.array([[-2.0, 0.0], [1.0, 0.0], [0.0, 2.0]])
+        m.variances = np.array([[2.0, 2.0], [1.5, 1.0], [1.0, 3.0]])
+        m.fit(X if not dask else B.darr(X, ((33, 30, 37), (2,))))
+        return m
+
+    lls = [float(np.mean(trained(k).log_likelihood(X))) for k in range(6)]
+    o = Outcome()
+    o.info["average_log_likelihoods"] = lls
+    for k in range(5):
+        o.claim("likelihood-not-decreasing-%d" % k, lls[k + 1] >= lls[k] - 1e-10)
+    return o
+
+
+def job_observable(P):
+    plist = [dict(um=um, uv=uv, uw=uw, dask=dk, seed=sd) for um, uv, uw in itertools.product((False, True), repeat=3) for dk in (False, True) for sd in (1, 2)]
+    P.probe_real("em-observable", sc_em_observable, plist, tries=1)
+
+
 def job_mstep(P, C, D):
     for um, uv, uw in itertools.product((False, True), repeat=3):
         P.run("mstep-m%dv%dw%d" % (um, uv, uw), sc_mstep, dict(C=C, D=D, um=um, uv=uv, uw=uw), validate=1)
@@ -269,7 +300,7 @@ def job_loop(P, K, cap_kind, thr_kind, dask, isolated, policy):
 
 
 def jobs(tier):
-    out = []
+    out = [("observable", "job_observable", {})]
     for (C, D) in SIZES[tier]:
         out.append(("mstep@C%dD%d" % (C, D), "job_mstep", dict(C=C, D=D)))
     out.append(("average@C2D2N3", "job_average", dict(C=2, D=2, N=3)))
